@@ -1342,6 +1342,10 @@ std::string Annotator::AnnotatorImpl::setAutoId(const AnyCellmlElementPtr &item)
             auto oldId = id(item);
 
             if (!isOwnedByModel(item)) {
+                auto issue = Issue::IssueImpl::create();
+                issue->mPimpl->setDescription("The item of type '" + cellmlElementTypeAsString(item->type()) + "' is not a member of the model stored in this annotator. No identifier has been assigned.");
+                issue->mPimpl->setReferenceRule(Issue::ReferenceRule::INVALID_ARGUMENT);
+                addIssue(issue);
                 return newId;
             }
 
